@@ -1,5 +1,6 @@
 import Tahoe.Base.DrvUtil
 import Tahoe.Immutable.UploadDecision
+import Tahoe.Immutable.UploadSelection
 /-! Driver for C06.
   `up <happy> <pre> <alloc> <phases> <closeEvs>`
      pre      : `sh:p.p,sh:p` | `-`       (share number ↦ server ids)
@@ -8,6 +9,11 @@ import Tahoe.Immutable.UploadDecision
      closeEvs : `o1,f2,w3`    | `-`       (o = close acknowledged, f = remote close failed, w = final flush write failed)
    → `success placed=… sm=… closed=… aborted=… vis=… holes=… ursm=… ursv=… pushed=n preexisting=n`
    | `unhappy closed=… aborted=… failed=… vis=… holes=…` | `assertion`
+  `sel <happy> <total> <events> <phases> <closeEvs>`  (server selection over a history of answers, then the upload)
+     events   : `g<srv>:<shares>` get_buckets answer | `G<srv>` get_buckets error |
+                `a<srv>:<asked>:<alreadygot>:<allocated>` allocate_buckets answer | `A<srv>:<asked>` allocate_buckets error,
+                joined by `,`; share lists joined by `.`, empty list `-`; no event at all `-`
+   → the `up` line of the selected (pre, alloc) followed by ` selpre=<sharemap> selalloc=<sh:p,…>`
   `hp <sharemap>` → the happiness value the driver uses: `UploadDecision.soh`, i.e. C08's model of
      `servers_of_happiness` (Tahoe.Happiness.serversOfHappiness). -/
 open Tahoe.Drv Tahoe.UploadDecision
@@ -49,21 +55,53 @@ def sortNat (l : List Nat) : List Nat := l.mergeSort (· ≤ ·)
 def sortSm (m : Sharemap) : Sharemap :=
   (m.map (fun (sh, ps) => (sh, sortNat ps))).mergeSort (fun a b => a.1 ≤ b.1)
 
+def showUp (r : Result) : String :=
+  let vis := s!"vis={nl (sortNat r.final.mayBeVisible)} holes={nl (sortNat r.final.holes.eraseDups)}"
+  match r.outcome with
+  | .success placed sm =>
+    let ur := match r.results with
+      | some u => s!"ursm={showSm (sortSm u.sharemap)} ursv={showSm (sortSm u.servermap)} pushed={u.pushed} preexisting={u.preexisting}"
+      | none => "ursm=? ursv=? pushed=? preexisting=?"
+    s!"success placed={nl (sortNat placed)} sm={showSm (sortSm sm)} closed={nl (sortNat r.final.closed)} aborted={nl (sortNat r.final.aborted)} {vis} {ur}"
+  | .unhappy =>
+    s!"unhappy closed={nl (sortNat r.final.closed)} aborted={nl (sortNat r.final.aborted.eraseDups)} failed={nl (sortNat r.final.failedEver.eraseDups)} {vis}"
+  | .assertion => "assertion"
+
+def parseList (t : String) : Option (List Nat) := if t == "-" then some [] else parsePeers t
+
+def parseSelEv (t : String) : Option SelEv :=
+  let body := (t.drop 1).toString
+  if t.startsWith "g" then match body.splitOn ":" with
+    | [srv, shs] => do pure (.gotBuckets (← srv.toNat?) (← parseList shs))
+    | _ => none
+  else if t.startsWith "G" then body.toNat?.map SelEv.gotBucketsErr
+  else if t.startsWith "a" then match body.splitOn ":" with
+    | [srv, asked, ag, al] => do pure (.allocated (← srv.toNat?) (← parseList asked) (← parseList ag) (← parseList al))
+    | _ => none
+  else if t.startsWith "A" then match body.splitOn ":" with
+    | [srv, asked] => do pure (.allocErr (← srv.toNat?) (← parseList asked))
+    | _ => none
+  else none
+
+def parseSelEvs (t : String) : Option (List SelEv) :=
+  if t == "-" then some [] else (t.splitOn ",").mapM parseSelEv
+
+def sortPairs (l : List (Nat × Nat)) : List (Nat × Nat) :=
+  l.mergeSort (fun a b => a.1 < b.1 ∨ (a.1 = b.1 ∧ a.2 ≤ b.2))
+
+def showPairs (l : List (Nat × Nat)) : String :=
+  if l.isEmpty then "-" else ",".intercalate (l.map (fun (a, b) => s!"{a}:{b}"))
+
 def handle : List String → String
   | ["up", happy, pre, alloc, phases, cl] =>
     match happy.toNat?, parseSharemap pre, parseAlloc alloc, parsePhases phases, parseClose cl with
-    | some h, some p, some a, some ph, some c =>
-      let r := upload soh h p a ph c
-      let vis := s!"vis={nl (sortNat r.final.mayBeVisible)} holes={nl (sortNat r.final.holes.eraseDups)}"
-      match r.outcome with
-      | .success placed sm =>
-        let ur := match r.results with
-          | some u => s!"ursm={showSm (sortSm u.sharemap)} ursv={showSm (sortSm u.servermap)} pushed={u.pushed} preexisting={u.preexisting}"
-          | none => "ursm=? ursv=? pushed=? preexisting=?"
-        s!"success placed={nl (sortNat placed)} sm={showSm (sortSm sm)} closed={nl (sortNat r.final.closed)} aborted={nl (sortNat r.final.aborted)} {vis} {ur}"
-      | .unhappy =>
-        s!"unhappy closed={nl (sortNat r.final.closed)} aborted={nl (sortNat r.final.aborted.eraseDups)} failed={nl (sortNat r.final.failedEver.eraseDups)} {vis}"
-      | .assertion => "assertion"
+    | some h, some p, some a, some ph, some c => showUp (upload soh h p a ph c)
+    | _, _, _, _, _ => "bad-op"
+  | ["sel", happy, total, evs, phases, cl] =>
+    match happy.toNat?, total.toNat?, parseSelEvs evs, parsePhases phases, parseClose cl with
+    | some h, some n, some e, some ph, some c =>
+      let st := select n e
+      s!"{showUp (selectThenUpload soh h n e ph c)} selpre={showSm (sortSm (preOf st.sel.existing))} selalloc={showPairs (sortPairs (allocOf st))}"
     | _, _, _, _, _ => "bad-op"
   | ["hp", sm] => match parseSharemap sm with
     | some m => toString (soh m)
